@@ -57,6 +57,12 @@ pub fn reset_all() {
 /// Runs a case to completion with no scheduling control (gates, if any, must be open).
 pub fn run_plain(case: &Case, plan: &Plan) -> RunResult {
     reset_all();
+    if ALLOC_MODE.load(std::sync::atomic::Ordering::SeqCst) {
+        // logging itself must not allocate while allocations are being counted
+        log::reserve(8192);
+        log::set_quiet(true);
+        let _ = crate::alloc::take_report();
+    }
     plan::set(plan.clone());
     let r = match &case.f {
         CaseFn::Sync(f) => {
@@ -83,6 +89,8 @@ pub fn run_plain(case: &Case, plan: &Plan) -> RunResult {
     let counters = tok::counters();
     RunResult { outcome, panic_msg, events, counters }
 }
+
+pub static ALLOC_MODE: std::sync::atomic::AtomicBool = std::sync::atomic::AtomicBool::new(false);
 
 pub fn seed32(seed: u64, salt: u64) -> [u8; 32] {
     let mut s = [0u8; 32];
@@ -200,6 +208,19 @@ fn check(mode: &str, obs: &Obs, rr: &RunResult) -> Vec<Violation> {
             vs.extend(obs.call_sequences());
         }
         "C03" => vs.extend(obs.barrier_log()),
+        "C19" => {
+            match crate::alloc::take_report() {
+                Some(0) => {}
+                Some(n) => vs.push(Violation { oracle: "alloc", detail: format!("the macro expression made {} heap allocation calls on the evaluating thread (user code makes none)", n) }),
+                None => {
+                    if rr.outcome.is_some() {
+                        vs.push(Violation { oracle: "alloc", detail: "no allocation measurement was reported".to_string() })
+                    }
+                }
+            }
+            // the measurement is only meaningful if the program did what the model says
+            vs.extend(obs.outcome());
+        }
         "ALL" => {
             vs.extend(obs.outcome());
             vs.extend(obs.call_sequences());
@@ -256,6 +277,15 @@ fn nontrivial(mode: &str, prog: &Prog, plan: &Plan, exp: &Expect) -> bool {
         }),
         "C13" => prog.handler.as_ref().map(|h| h.pos < n || exp.fail_step.is_some()).unwrap_or(false),
         "C03" => n >= 2 && prog.max_steps() >= 2,
+        "C19" => {
+            let mut acts = Vec::new();
+            for b in &prog.branches {
+                for c in &b.steps {
+                    model::all_acts(c, &mut acts);
+                }
+            }
+            n >= 2 && prog.max_steps() >= 2 && acts.iter().any(|a| a.op == Op::Inspect)
+        }
         _ => n >= 2,
     }
 }
@@ -349,6 +379,13 @@ pub fn main(cases: &[Case]) {
         std::panic::set_hook(Box::new(|_| {}));
     }
     let mode = Mode { name, seed, budget, strict: false };
+    if mode.name == "C19" {
+        if !crate::alloc::enabled() {
+            println!("{}", json!({"case": 0, "runs": 0, "nontrivial": 0, "classes": {}, "samples": [], "violations": [], "infra": ["built without the counting allocator"]}));
+            return;
+        }
+        ALLOC_MODE.store(true, std::sync::atomic::Ordering::SeqCst);
+    }
     // child process of a panic-injection run
     if std::env::var("JV_CHILD").is_ok() {
         let plan = Plan::from_json(&serde_json::from_str::<Value>(&std::env::var("JV_PLAN").expect("JV_PLAN")).expect("JV_PLAN json"));
